@@ -10,31 +10,65 @@
    where `sim` (RefineDesBase.v) allows the two cursors to differ once both are at/past the capacity: that is what the clamped
    size of nested sealed objects produces.  Sequencing lemmas (arrays, fields, union members) are stated for two cursors
    related by `near`; when they differ both sides decode the empty stream. *)
-From Verif Require Import Wire WireThm WireThmExt Walker Refine RefineDesBase.
+From Verif Require Import Wire WireThm WireThmExt Walker Refine RefineDesBase PrimsOn.
 From Coq Require Import Lia ZifyBool ZifyNat ZifyN.
 Local Open Scope nat_scope.
 Ltac Zify.zify_post_hook ::= Z.div_mod_to_equations.
 
 Section RefineDes.
   Variable P : prims.
-  Hypothesis HP : prims_ok P.
   Variable buf : list bool.
+  (* the only thing assumed of the primitives: reads of the widths in Wd (at least 1..64) from THIS buffer (PrimsOn.get_law) *)
+  Variable Wd : nat -> Prop.
+  Hypothesis HWd : forall w, 1 <= w <= 64 -> Wd w.
+  Hypothesis Hget : get_law P Wd buf.
+
+  (* the widths the type makes the walker read are allowed: all widths are, or the type is well-formed (fields of 1..64 bits) *)
+  Definition okW (t : ty) : Prop := (forall w, Wd w) \/ wf_ty t = true.
+
+  Lemma okW_prim p : okW (TPrim p) -> Wd (prim_bits p).
+  Proof.
+    intros [H|H]; [apply H|]. apply HWd. cbn [wf_ty] in H.
+    destruct p; cbn [prim_wf prim_bits] in *; lia.
+  Qed.
+
+  Lemma okW_fix e n : okW (TFix e n) -> okW e.
+  Proof. intros [H|H]; [left; exact H | right; exact H]. Qed.
+
+  Lemma okW_var e c : okW (TVar e c) -> okW e.
+  Proof. intros [H|H]; [left; exact H|]. right. cbn [wf_ty] in H. apply andb_prop in H. apply H. Qed.
+
+  Lemma okW_fields u fs ext : okW (TComp u fs ext) -> Forall okW fs.
+  Proof.
+    intros [H|H]; apply Forall_forall; intros f Hin; [left; exact H|]. right.
+    cbn [wf_ty] in H. apply andb_prop in H. destruct H as [H _]. apply andb_prop in H. destruct H as [H _].
+    rewrite forallb_forall in H. apply H. exact Hin.
+  Qed.
+
+  Lemma Wd_len_width m : Wd (len_width m).
+  Proof. apply HWd. destruct (len_width_cases m) as [-> | [-> | [-> | ->]]]; lia. Qed.
+
+  Lemma Wd_header : Wd header_bits.
+  Proof. apply HWd. unfold header_bits. lia. Qed.
 
   Definition view (cap : nat) : list bool := firstn cap buf.
 
   Lemma view_len cap : cap <= length buf -> length (view cap) = cap.
   Proof. intros H. unfold view. apply firstn_length_le. exact H. Qed.
 
-  Lemma get_view cap off w : get_bits P buf cap off w = take_ze w (skipn off (view cap)).
-  Proof. apply (get_ok P HP). Qed.
+  Lemma get_view cap off w : Wd w -> cap <= length buf -> cap mod 8 = 0 ->
+    get_bits P buf cap off w = take_ze w (skipn off (view cap)).
+  Proof. intros HW Hc Hm. apply Hget; assumption. Qed.
 
   Lemma view_beyond cap off : cap <= length buf -> cap <= off -> skipn off (view cap) = [].
   Proof. intros Hc H. apply skipn_all2. rewrite (view_len cap Hc). exact H. Qed.
 
-  Lemma r_prim_view p cap off : cap <= length buf -> cap mod 8 = 0 ->
+  Lemma r_prim_view p cap off : okW (TPrim p) -> cap <= length buf -> cap mod 8 = 0 ->
     r_prim P p buf cap off = dec_prim p (skipn off (view cap)).
   Proof.
-    intros Hc Hm. destruct p; cbn [r_prim dec_prim prim_bits]; rewrite ?get_view; unfold read_N; try reflexivity.
+    intros Hok Hc Hm. pose proof (okW_prim p Hok) as HWp. assert (HW1 : Wd 1) by (apply HWd; lia).
+    destruct p; cbn [r_prim dec_prim prim_bits] in *; rewrite ?(get_view cap off _ HWp Hc Hm), ?(get_view cap off 1 HW1 Hc Hm);
+      unfold read_N; try reflexivity.
     - (* bool: `if (offset_bits < capacity_bits)` *)
       destruct (Nat.ltb_spec off cap) as [Hlt|Hge]; [reflexivity|].
       rewrite view_beyond by assumption. reflexivity.
@@ -46,23 +80,23 @@ Section RefineDes.
       rewrite view_beyond by assumption. rewrite take_ze_nil', N_of_bits_zeros. reflexivity.
   Qed.
 
-  Definition P_des (t : ty) : Prop := forall cap off, cap <= length buf -> cap mod 8 = 0 -> off mod align t = 0 ->
+  Definition P_des (t : ty) : Prop := okW t -> forall cap off, cap <= length buf -> cap mod 8 = 0 -> off mod align t = 0 ->
     sim cap (wd_body P t buf cap off) (shift off (dec_body t (skipn off (view cap)))).
 
-  Definition P_desf1 (t : ty) : Prop := forall cap off, cap <= length buf -> cap mod 8 = 0 -> off mod align t = 0 ->
+  Definition P_desf1 (t : ty) : Prop := okW t -> forall cap off, cap <= length buf -> cap mod 8 = 0 -> off mod align t = 0 ->
     sim cap (wd_field P (wd_body P) t buf cap off) (shift off (dec_field t (skipn off (view cap)))).
 
-  Definition P_desf (t : ty) : Prop := forall cap ow os, cap <= length buf -> cap mod 8 = 0 -> ow mod align t = 0 ->
+  Definition P_desf (t : ty) : Prop := okW t -> forall cap ow os, cap <= length buf -> cap mod 8 = 0 -> ow mod align t = 0 ->
     near cap ow os ->
     sim cap (wd_field P (wd_body P) t buf cap ow) (shift os (dec_field t (skipn os (view cap)))).
 
   (* nested composites as fields: the clamped size of sealed ones, the bounded sub-buffer of delimited ones *)
   Lemma des_body_to_field1 t : P_des t -> P_desf1 t.
   Proof.
-    intros H cap off Hc Hm Ha. unfold dec_field, as_field_dec.
+    intros H Hok cap off Hc Hm Ha. unfold dec_field, as_field_dec.
     destruct t as [p|e n|e c|u fs [x|]]; try (apply H; assumption).
     - (* delimited: header check, decode within header bytes, cursor += header value *)
-      cbn [wd_field]. cbn [align] in Ha. rewrite get_view.
+      cbn [wd_field]. cbn [align] in Ha. rewrite (get_view cap off header_bits Wd_header Hc Hm).
       fold (read_N header_bits (skipn off (view cap))).
       set (hN := read_N header_bits (skipn off (view cap))).
       rewrite skipn_add, skipn_length, (view_len cap Hc).
@@ -78,14 +112,14 @@ Section RefineDes.
       { unfold view. rewrite !skipn_firstn_comm, firstn_firstn. f_equal. lia. }
       assert (Hc' : Nat.min cap (o + 8 * h) <= length buf) by lia.
       assert (Hm' : Nat.min cap (o + 8 * h) mod 8 = 0) by lia.
-      pose proof (H (Nat.min cap (o + 8 * h)) o Hc' Hm' Ho) as S. rewrite Hsub in S.
+      pose proof (H Hok (Nat.min cap (o + 8 * h)) o Hc' Hm' Ho) as S. rewrite Hsub in S.
       destruct (dec_body (TComp u fs (Some x)) (firstn (8 * h) (skipn o (view cap)))) as [[v k]|e];
         destruct (wd_body P (TComp u fs (Some x)) buf (Nat.min cap (o + 8 * h)) o) as [[v' o']|e'];
         cbn [shift sim bind] in *; try contradiction; [|exact S].
       destruct S as [-> _]. split; [reflexivity|]. unfold near, o. split; [f_equal; lia | left; lia].
     - (* sealed: handed the rest of the buffer, cursor advanced by the clamped size it reports *)
       cbn [wd_field]. cbn [align] in Ha.
-      pose proof (H cap off Hc Hm Ha) as S.
+      pose proof (H Hok cap off Hc Hm Ha) as S.
       destruct (dec_body (TComp u fs None) (skipn off (view cap))) as [[v k]|e] eqn:E;
         destruct (wd_body P (TComp u fs None) buf cap off) as [[v' o']|e'];
         cbn [shift sim bind] in *; try contradiction; [|exact S].
@@ -97,8 +131,8 @@ Section RefineDes.
   (* two cursors: when they differ both stand at/past the capacity and both decoders see the empty stream *)
   Lemma des_field1_to_field t : P_desf1 t -> P_desf t.
   Proof.
-    intros H cap ow os Hc Hm Ha [Hmod [->|[H1 H2]]]; [apply H; assumption|].
-    pose proof (H cap ow Hc Hm Ha) as S.
+    intros H Hok cap ow os Hc Hm Ha [Hmod [->|[H1 H2]]]; [apply H; assumption|].
+    pose proof (H Hok cap ow Hc Hm Ha) as S.
     rewrite (view_beyond cap ow Hc H1) in S. rewrite (view_beyond cap os Hc H2).
     destruct (dec_field t []) as [[v k]|e]; destruct (wd_field P (wd_body P) t buf cap ow) as [[v' o']|e'];
       cbn [shift sim] in *; try contradiction; [|exact S].
@@ -108,13 +142,13 @@ Section RefineDes.
   Lemma des_body_to_field t : P_des t -> P_desf t.
   Proof. intros H. apply des_field1_to_field, des_body_to_field1, H. Qed.
 
-  Lemma des_list e : P_desf e -> forall n cap ow os, cap <= length buf -> cap mod 8 = 0 -> ow mod align e = 0 ->
+  Lemma des_list e : okW e -> P_desf e -> forall n cap ow os, cap <= length buf -> cap mod 8 = 0 -> ow mod align e = 0 ->
     near cap ow os ->
     sim cap (wd_list (wd_field P (wd_body P) e) n buf cap ow) (shift os (dec_list (dec_field e) n (skipn os (view cap)))).
   Proof.
-    intros He. induction n as [|n IH]; intros cap ow os Hc Hm Ha Hn; cbn [wd_list dec_list].
+    intros Hok He. induction n as [|n IH]; intros cap ow os Hc Hm Ha Hn; cbn [wd_list dec_list].
     - cbn [shift sim]. split; [reflexivity|]. rewrite Nat.add_0_r. exact Hn.
-    - pose proof (He cap ow os Hc Hm Ha Hn) as S.
+    - pose proof (He Hok cap ow os Hc Hm Ha Hn) as S.
       destruct (dec_field e (skipn os (view cap))) as [[v k]|err] eqn:E;
         destruct (wd_field P (wd_body P) e buf cap ow) as [[v' o']|err'];
         cbn [shift sim bind] in *; try contradiction; [|exact S].
@@ -129,56 +163,58 @@ Section RefineDes.
       destruct S as [-> S]. split; [reflexivity|]. rewrite Nat.add_assoc. exact S.
   Qed.
 
-  Lemma des_fields fs : Forall P_desf fs -> forall cap ow os, cap <= length buf -> cap mod 8 = 0 -> near cap ow os ->
+  Lemma des_fields fs : Forall P_desf fs -> Forall okW fs -> forall cap ow os, cap <= length buf -> cap mod 8 = 0 -> near cap ow os ->
     sim cap (wd_fields (wd_field P (wd_body P)) fs buf cap ow) (dec_fields dec_field fs (skipn os (view cap)) os).
   Proof.
-    induction 1 as [|f fs Hf Hfs IH]; intros cap ow os Hc Hm Hn; cbn [wd_fields dec_fields].
+    induction 1 as [|f fs Hf Hfs IH]; intros Hoks cap ow os Hc Hm Hn; cbn [wd_fields dec_fields].
     - cbn [sim]. split; [reflexivity|]. unfold near, pad8 in *. lia.
-    - assert (Hp : padn ow (align f) = padn os (align f)) by (apply padn_cong; apply Hn).
+    - inversion Hoks as [|? ? Hok1 Hok2]; subst.
+      assert (Hp : padn ow (align f) = padn os (align f)) by (apply padn_cong; apply Hn).
       rewrite Hp. set (p := padn os (align f)).
       assert (Hn1 : near cap (ow + p) (os + p)) by (unfold near in *; lia).
       assert (Ha1 : (ow + p) mod align f = 0) by (unfold p; rewrite <- Hp; apply rupn_aligned).
-      pose proof (Hf cap (ow + p) (os + p) Hc Hm Ha1 Hn1) as S. rewrite skipn_add.
+      pose proof (Hf Hok1 cap (ow + p) (os + p) Hc Hm Ha1 Hn1) as S. rewrite skipn_add.
       destruct (dec_field f (skipn (os + p) (view cap))) as [[v k]|err];
         destruct (wd_field P (wd_body P) f buf cap (ow + p)) as [[v' o']|err'];
         cbn [shift sim bind] in *; try contradiction; [|exact S].
       destruct S as [-> Hn'].
-      pose proof (IH cap o' (os + p + k) Hc Hm Hn') as S. rewrite skipn_add, Nat.add_assoc.
+      pose proof (IH Hok2 cap o' (os + p + k) Hc Hm Hn') as S. rewrite skipn_add, Nat.add_assoc.
       destruct (dec_fields dec_field fs (skipn (os + p + k) (view cap)) (os + p + k)) as [[vs m]|err];
         destruct (wd_fields (wd_field P (wd_body P)) fs buf cap o') as [[vs' o'']|err'];
         cbn [sim bind] in *; try contradiction; [|exact S].
       destruct S as [-> S]. split; [reflexivity | exact S].
   Qed.
 
-  Lemma des_sel fs : Forall P_desf fs -> forall k cap off, cap <= length buf -> cap mod 8 = 0 -> off mod 8 = 0 ->
+  Lemma des_sel fs : Forall P_desf fs -> Forall okW fs -> forall k cap off, cap <= length buf -> cap mod 8 = 0 -> off mod 8 = 0 ->
     sim cap (wd_sel (wd_field P (wd_body P)) fs k buf cap off) (shift off (dec_sel dec_field fs k (skipn off (view cap)))).
   Proof.
-    induction 1 as [|f fs Hf Hfs IH]; intros k cap off Hc Hm Ha; [destruct k; cbn [wd_sel dec_sel shift sim]; reflexivity|].
+    induction 1 as [|f fs Hf Hfs IH]; intros Hoks k cap off Hc Hm Ha; [destruct k; cbn [wd_sel dec_sel shift sim]; reflexivity|].
+    inversion Hoks as [|? ? Hok1 Hok2]; subst.
     destruct k as [|k]; cbn [wd_sel dec_sel]; [|apply IH; assumption].
-    apply Hf; [assumption | assumption | apply mod_align; exact Ha | apply near_refl].
+    apply Hf; [assumption | assumption | assumption | apply mod_align; exact Ha | apply near_refl].
   Qed.
 
   Theorem des_all : forall t, P_des t.
   Proof.
-    induction t as [p|e n IHe|e c IHe|u fs ext H] using ty_nested_ind; unfold P_des; intros cap off Hc Hm Ha.
+    induction t as [p|e n IHe|e c IHe|u fs ext H] using ty_nested_ind; unfold P_des; intros Hok cap off Hc Hm Ha.
     - (* primitive *)
       cbn [wd_body dec_body shift sim]. rewrite r_prim_view by assumption. split; [reflexivity | apply near_refl].
     - (* fixed array *)
       cbn [wd_body dec_body align] in *. change (as_field_dec dec_body) with dec_field.
-      pose proof (des_list e (des_body_to_field e IHe) n cap off off Hc Hm Ha (near_refl cap off)) as S.
+      pose proof (des_list e (okW_fix e n Hok) (des_body_to_field e IHe) n cap off off Hc Hm Ha (near_refl cap off)) as S.
       destruct (dec_list (dec_field e) n (skipn off (view cap))) as [[vs k]|err];
         destruct (wd_list (wd_field P (wd_body P) e) n buf cap off) as [[vs' o']|err'];
         cbn [shift sim bind] in *; try contradiction; [|exact S].
       destruct S as [-> S]. split; [reflexivity | exact S].
     - (* variable array *)
       cbn [wd_body dec_body align] in *. change (as_field_dec dec_body) with dec_field.
-      rewrite get_view. fold (read_N (prefix_bits c) (skipn off (view cap))).
+      rewrite (get_view cap off (prefix_bits c) (Wd_len_width c) Hc Hm). fold (read_N (prefix_bits c) (skipn off (view cap))).
       destruct (N.of_nat c <? read_N (prefix_bits c) (skipn off (view cap)))%N; [cbn [shift sim]; reflexivity|].
       set (n := N.to_nat (read_N (prefix_bits c) (skipn off (view cap)))).
       assert (Ha' : (off + prefix_bits c) mod align e = 0).
       { pose proof (len_width_mod8 c) as Hw. unfold prefix_bits.
         destruct (align_cases e) as [A | A]; rewrite A in *; [apply Nat.mod_1_r | lia]. }
-      pose proof (des_list e (des_body_to_field e IHe) n cap _ _ Hc Hm Ha' (near_refl cap (off + prefix_bits c))) as S.
+      pose proof (des_list e (okW_var e c Hok) (des_body_to_field e IHe) n cap _ _ Hc Hm Ha' (near_refl cap (off + prefix_bits c))) as S.
       rewrite skipn_add.
       destruct (dec_list (dec_field e) n (skipn (off + prefix_bits c) (view cap))) as [[vs k]|err];
         destruct (wd_list (wd_field P (wd_body P) e) n buf cap (off + prefix_bits c)) as [[vs' o']|err'];
@@ -187,22 +223,22 @@ Section RefineDes.
     - (* composite *)
       assert (Hf : Forall P_desf fs).
       { rewrite Forall_forall in *. intros f Hin. apply des_body_to_field. apply H. exact Hin. }
-      cbn [align] in Ha.
+      cbn [align] in Ha. pose proof (okW_fields u fs ext Hok) as Hoks.
       destruct u; cbn [wd_body dec_body]; change (as_field_dec dec_body) with dec_field.
       + (* union *)
         set (tw := tag_bits (length fs)).
-        rewrite get_view. fold (read_N tw (skipn off (view cap))).
+        rewrite (get_view cap off tw (Wd_len_width (length fs - 1)) Hc Hm). fold (read_N tw (skipn off (view cap))).
         destruct (N.of_nat (length fs) <=? read_N tw (skipn off (view cap)))%N; [cbn [shift sim]; reflexivity|].
         set (k := N.to_nat (read_N tw (skipn off (view cap)))).
         assert (Htw : tw mod 8 = 0) by apply tag_bits_mod8.
         assert (Ha' : (off + tw) mod 8 = 0) by lia.
-        pose proof (des_sel fs Hf k cap (off + tw) Hc Hm Ha') as S. rewrite skipn_add.
+        pose proof (des_sel fs Hf Hoks k cap (off + tw) Hc Hm Ha') as S. rewrite skipn_add.
         destruct (dec_sel dec_field fs k (skipn (off + tw) (view cap))) as [[v m]|err];
           destruct (wd_sel (wd_field P (wd_body P)) fs k buf cap (off + tw)) as [[v' o']|err'];
           cbn [shift sim bind] in *; try contradiction; [|exact S].
         destruct S as [-> S]. split; [reflexivity|]. unfold near, pad8 in *. lia.
       + (* structure *)
-        pose proof (des_fields fs Hf cap off off Hc Hm (near_refl cap off)) as S.
+        pose proof (des_fields fs Hf Hoks cap off off Hc Hm (near_refl cap off)) as S.
         rewrite (dec_fields_from dec_field fs off _ Ha) in S.
         destruct (dec_fields dec_field fs (skipn off (view cap)) 0) as [[vs m]|err];
           destruct (wd_fields (wd_field P (wd_body P)) fs buf cap off) as [[vs' o']|err'];
@@ -211,16 +247,25 @@ Section RefineDes.
   Qed.
 End RefineDes.
 
-(* ---- the full deserialization refinement: Refine.walk_des_refines_statement holds ---- *)
-Theorem walk_des_refines_all : forall P t bits, prims_ok P -> length bits mod 8 = 0 -> walk_des P t bits = des_spec t bits.
+(* ---- the deserialization refinement from the restricted read law (PrimsOn.get_law): this is the form that is instantiated
+   with the shipped primitives (Codec/Instances*.v) ---- *)
+Theorem walk_des_refines_on : forall P (Wd : nat -> Prop) t bits,
+  (forall w, 1 <= w <= 64 -> Wd w) -> get_law P Wd bits -> ((forall w, Wd w) \/ wf_ty t = true) ->
+  length bits mod 8 = 0 -> walk_des P t bits = des_spec t bits.
 Proof.
-  intros P t bits HP Hb. unfold walk_des, des_spec.
+  intros P Wd t bits HWd Hget Hok Hb. unfold walk_des, des_spec.
   assert (H0 : 0 mod align t = 0) by (destruct (align_cases t) as [-> | ->]; reflexivity).
-  pose proof (des_all P HP bits t (length bits) 0 (le_n _) Hb H0) as S.
+  pose proof (des_all P bits Wd HWd Hget t Hok (length bits) 0 (le_n _) Hb H0) as S.
   unfold view in S. rewrite firstn_all in S. cbn [skipn] in S.
   destruct (dec_body t bits) as [[v k]|err]; destruct (wd_body P t bits (length bits) 0) as [[v' o']|err'];
     cbn [shift sim bind] in *; try contradiction; [|f_equal; exact S].
   destruct S as [-> S]. f_equal. f_equal. unfold near in S. cbn [plus] in S. lia.
+Qed.
+
+(* ---- the full deserialization refinement: Refine.walk_des_refines_statement holds ---- *)
+Theorem walk_des_refines_all : forall P t bits, prims_ok P -> length bits mod 8 = 0 -> walk_des P t bits = des_spec t bits.
+Proof.
+  intros P t bits HP Hb. apply (walk_des_refines_on P (fun _ => True)); [trivial | apply prims_ok_get_law; exact HP | left; trivial | exact Hb].
 Qed.
 
 Theorem walk_des_refines_statement_holds : walk_des_refines_statement.
